@@ -4,6 +4,7 @@ import (
 	"encoding/json"
 	"flag"
 	"fmt"
+	"hash/crc32"
 	"os"
 	"path/filepath"
 	"regexp"
@@ -501,7 +502,7 @@ func uniq(xs []string) []string {
 
 func writeReplay(dir string, o *options, u *Unit, ob *Obl) string {
 	os.MkdirAll(dir, 0o755)
-	path := filepath.Join(dir, sanitize(trunc(ob.Name, 120))+".json")
+	path := filepath.Join(dir, fmt.Sprintf("%s_%08x.json", sanitize(trunc(ob.Name, 120)), crc32.ChecksumIEEE([]byte(ob.Name))))
 	rec := map[string]interface{}{
 		"property": o.prop, "obligation": ob.Name, "kind": ob.Kind, "unit": u.Name, "position": ob.Pos, "clause": ob.Text,
 		"solver": ob.Solver, "result": ob.Result, "verifier_output": ob.Output, "model": modelSummary(ob.Model),
@@ -556,26 +557,26 @@ func writeEvidence(o *options, db *ContractDB, reports []oblReport, funcs, assum
 		"violations":  nViol,
 		"assumptions": append(stdAssume, assumptions...),
 		"coverage": map[string]interface{}{
-			"obligations":              nObl - len(knownHits),
-			"discharged":               nDis,
-			"obligations_generated":    nObl,
+			"obligations":               nObl - len(knownHits),
+			"discharged":                nDis,
+			"obligations_generated":     nObl,
 			"known_finding_obligations": len(knownHits),
-			"checker_cmd":              fmt.Sprintf("/verif/bin/govc check --property %s --tier %s", o.prop, o.tier),
-			"trusted_base":             trusted,
-			"functions_under_contract": funcs,
-			"contracts_used_at_calls":  contracts,
-			"inlined_callees":          inlined,
-			"callsites_enumerated":     callsites,
-			"by_backend":               byBackend,
-			"solver_time_s":            solverTime,
-			"vacuity_probes":           nVac,
-			"known_findings":           knownHits,
-			"broken":                   broken,
-			"unmodelled_features":      unsupported,
-			"contract_files":           db.Files,
-			"samples":                  samples,
-			"all_obligations":          reports,
-			"bounded_standins":         []string{},
+			"checker_cmd":               fmt.Sprintf("/verif/bin/govc check --property %s --tier %s", o.prop, o.tier),
+			"trusted_base":              trusted,
+			"functions_under_contract":  funcs,
+			"contracts_used_at_calls":   contracts,
+			"inlined_callees":           inlined,
+			"callsites_enumerated":      callsites,
+			"by_backend":                byBackend,
+			"solver_time_s":             solverTime,
+			"vacuity_probes":            nVac,
+			"known_findings":            knownHits,
+			"broken":                    broken,
+			"unmodelled_features":       unsupported,
+			"contract_files":            db.Files,
+			"samples":                   samples,
+			"all_obligations":           reports,
+			"bounded_standins":          []string{},
 		},
 	}
 	b, _ := json.MarshalIndent(ev, "", " ")
